@@ -117,6 +117,19 @@ impl Property for C02 {
             raw_byte: None,
         };
         let mut spec = gen_tree(rng, &cfg);
+        // now and then a chain of directories dozens of levels deep, walked while only a few
+        // descriptors may be open: the walk must not need one descriptor per level
+        let deep_chain = rng.chance(1, 25);
+        if deep_chain {
+            let mut p = roots[0].clone();
+            for k in 0..rng.urange(24, 48) {
+                p = format!("{p}/q{k}");
+                spec.nodes.push(Node::Dir { path: p.clone() });
+                if rng.chance(1, 5) {
+                    spec.nodes.push(Node::File { path: format!("{p}/leaf"), size: 1, token: k as u32, atime_ns: None, mtime_ns: None });
+                }
+            }
+        }
         // links at the top level that can serve as starting points
         let mut top_links = vec![];
         if rng.chance(1, 3) {
@@ -234,8 +247,12 @@ impl Property for C02 {
         // -xdev/-mount only where no link loops and nothing is unreadable (see gen_extras)
         let xdev_ok = !cfg.allow_loops && spec_has_no_faults;
         find.gen_extras(rng, xdev_ok);
+        if deep_chain {
+            find.ambient.nofile_headroom = Some(rng.urange(16, 22) as u32);
+        }
         if rng.chance(1, 10) {
             find.starts_via_file = true;
+            find.files0_no_final_nul = rng.chance(1, 3);
             if rng.chance(1, 3) {
                 find.files0_empty_after = Some(rng.usize_below(starts.len() + 1).min(starts.len().saturating_sub(0)));
             }
